@@ -25,6 +25,13 @@ mod std {
     }
     pub mod sync {
         pub use ::std::sync::*;
+        pub use ::verif_rt::sync::{
+            Barrier, BarrierWaitResult, Condvar, Mutex, MutexGuard, Once, RwLock, RwLockReadGuard,
+            RwLockWriteGuard,
+        };
+        pub mod mpsc {
+            pub use ::verif_rt::sync::mpsc::*;
+        }
         pub mod atomic {
             pub use ::std::sync::atomic::*;
             pub use ::verif_rt::atomic::{
